@@ -564,10 +564,26 @@ func (c *SpecCtx) evalCall(x *ECall) *V {
 		return u.iteVal(cond, c.eval(x.Args[1]), c.eval(x.Args[2]))
 	case "seen":
 		// visited set of the enclosing map-range loop
-		if c.loop == nil || c.loop.iter == nil {
-			c.fail("seen() outside a map-range loop invariant")
+		var it *iterInfo
+		if len(x.Args) == 2 {
+			ks, ok := x.Args[1].(*EStr)
+			if !ok || c.fr == nil {
+				c.fail("seen(k, \"loop key\") expects a string literal")
+			}
+			for _, li := range c.fr.loops {
+				if li.key == ks.V || li.key == ks.V+" #0" {
+					it = li.iter
+				}
+			}
+			if it == nil {
+				c.fail("seen(): no map-range loop %q (or not yet entered)", ks.V)
+			}
+		} else {
+			if c.loop == nil || c.loop.iter == nil {
+				c.fail("seen() outside a map-range loop invariant")
+			}
+			it = c.loop.iter
 		}
-		it := c.loop.iter
 		mk := u.mapKeysOf(it.m.Typ)
 		k := c.coerceTo(c.eval(x.Args[0]), mk.kt)
 		return boolV(sel(u.heapGet(c.st, it.seenKey, arrSort(mk.ks, SBool)), u.keyTerm(k)))
